@@ -127,6 +127,9 @@ def record_scale_trace(spec):
     else:  # sine + noise
         x = np.sin(0.37 * t + 1.0) + 0.1 * rng.standard_normal(N)
         y = 0.7 * np.sin(0.37 * t + 0.2) + 0.1 * rng.standard_normal(N)
+    unit = float(spec.get("unit", 1.0))     # physical unit of the samples: the statement and the rounding budget are scale free
+    if unit != 1.0:
+        x, y = x * unit, y * unit
     starts = rng.integers(0, N - L + 1, size=K).astype(np.int64)      # unsorted, repeats allowed
     if spec.get("starts") == "near_regular" and K >= 4 and N - L >= K:
         # evenly spaced first/second/last entries, jittered interior: shortcuts that only look at the ends must not fire
@@ -221,7 +224,8 @@ def scale_specs(tier, seed):
         specs.append(dict(seed=rnd.randrange(2 ** 31), N=N, L=L, K=K, order=rnd.choice([-1, 0, 1, 2]),
                           mode=rnd.choice(["auto", "csd"]), data=rnd.choice(["white", "trend", "sine", "line"]),
                           win=rnd.choice(wins if L >= 8 else ["rect", "hann", "kaiser"]), omega=om,
-                          cuda=(i % (8 if tier == "quick" else 6) == 0), starts=("near_regular" if i % 3 == 1 else "random")))
+                          cuda=(i % (8 if tier == "quick" else 6) == 0), starts=("near_regular" if i % 3 == 1 else "random"),
+                          unit=(2.0 ** -80 if i % 7 == 3 else 2.0 ** 40 if i % 7 == 5 else 1.0)))
     return specs
 
 
